@@ -98,6 +98,13 @@ def run(ctx):
         st_cnt = [(i, val) for i, place, val, node in sem.stores(o, lambda pl: sem.strip_site(pl) == sem.strip_site(CNT))]
         ctx.add('N4.store-candidate', A.path + '|' + sig, loc(root), bool(st_cnt) and st_cnt[-1][1] == V,
                 'the shared counter is %s on the path returning %s: the next search would not start after this ID' % ('not written' if not st_cnt else 'set to ' + absx.fmt(st_cnt[-1][1])[:40], absx.fmt(V)[:40]))
+        # N8 numbering only advances: the search starts from the counter as the previous allocation left it, and the only value ever
+        # written to it is the ID being claimed.  (Releases are not exact in this code base - a stream finished after its Done, or
+        # after a timeout, scrubs its ID a second time - which is harmless only as long as a released ID is not handed out again
+        # before the counter has gone all the way round.)
+        ctx.add('N8.numbering-only-advances', A.path + '|' + sig, loc(root), bool(st_cnt) and all(val == V for _i, val in st_cnt),
+                'the shared counter is also set to %s on the path returning %s: numbering restarts, so a recently released ID is handed out again while a stale scrub for it may still be on its way' % (
+                    [absx.fmt(val)[:30] for _i, val in st_cnt if val != V][:2], absx.fmt(V)[:40]))
         ctx.add('N4.single-insert', A.path + '|' + sig, loc(root), len(ins) == 1 and ins[0][1][1] == V, 'the returned ID is not (exactly once) inserted into the in-use set')
         drops = [i for i, cal, args, node in sem.calls(o, lambda c: c.endswith('mem::drop')) if sem.has(args[0], lambda x: sem.strip_site(x) == sem.strip_site(G))]
         last_use = max([i for i, _v in st_cnt] + [i for i, _a in ins] + [0])
